@@ -720,6 +720,233 @@ impl<'a> G<'a> {
     }
 }
 
+
+// ---------------------------------------------------------------------------------------
+// systematic batch: every listed rejection cause once, on minimal bases (a finite list, enumerated completely)
+
+fn min_struct() -> CItem {
+    CItem {
+        attrs: vec![],
+        body: Body::Struct(vec![CField { attrs: vec![], name: "alpha".into(), ty: "u8".into(), poison: false }]),
+        cause: String::new(),
+        level: "",
+        form: "",
+        base: "struct",
+    }
+}
+fn min_tagged() -> CItem {
+    CItem {
+        attrs: vec![vec![a("tag = \"kind\"")]],
+        body: Body::Enum(vec![
+            CVariant { attrs: vec![], name: "First".into(), data: VData::Named(vec![CField { attrs: vec![], name: "alpha".into(), ty: "u8".into(), poison: false }]), poison: false },
+            CVariant { attrs: vec![], name: "Second".into(), data: VData::Unit, poison: false },
+        ]),
+        cause: String::new(),
+        level: "",
+        form: "",
+        base: "tagged-enum",
+    }
+}
+fn min_unit_enum() -> CItem {
+    CItem {
+        attrs: vec![],
+        body: Body::Enum(vec![
+            CVariant { attrs: vec![], name: "First".into(), data: VData::Unit, poison: false },
+            CVariant { attrs: vec![], name: "Second".into(), data: VData::Unit, poison: false },
+        ]),
+        cause: String::new(),
+        level: "",
+        form: "",
+        base: "unit-enum",
+    }
+}
+fn min_via(conv: &str) -> CItem {
+    CItem { attrs: vec![vec![a(conv)]], body: Body::Tuple("u8".into()), cause: String::new(), level: "", form: "", base: "container-conversion" }
+}
+
+fn with(mut it: CItem, cause: &str, level: &'static str, form: &'static str) -> CItem {
+    it.cause = cause.to_string();
+    it.level = level;
+    it.form = form;
+    it
+}
+
+/// place one or two poison items at a level of a minimal base; `two` = in two separate attributes
+fn place(level: &'static str, base: CItem, x: &str, y: Option<&str>, two: bool, field_ty: &str) -> CItem {
+    let mut it = base;
+    let groups: Attrs = match (y, two) {
+        (None, _) => vec![vec![px(x)]],
+        (Some(y), false) => vec![vec![px(x), px(y)]],
+        (Some(y), true) => vec![vec![px(x)], vec![px(y)]],
+    };
+    match level {
+        "container" => it.attrs.extend(groups),
+        "variant" => {
+            if let Body::Enum(vs) = &mut it.body {
+                vs[0].attrs.extend(groups);
+                vs[0].poison = true;
+            }
+        }
+        _ => match &mut it.body {
+            Body::Struct(fs) => fs.push(CField { attrs: groups, name: "poisoned".into(), ty: field_ty.into(), poison: true }),
+            Body::Enum(vs) => {
+                if let VData::Named(fs) = &mut vs[0].data {
+                    fs.push(CField { attrs: groups, name: "poisoned".into(), ty: field_ty.into(), poison: true });
+                }
+                vs[0].poison = true;
+            }
+            _ => {}
+        },
+    }
+    it
+}
+
+fn systematic_items() -> Vec<CItem> {
+    let mut v: Vec<CItem> = vec![];
+    // unsupported shapes
+    v.push(with(CItem { attrs: vec![], body: Body::Tuple("u8".into()), cause: String::new(), level: "", form: "", base: "-" }, "shape:tuple-struct", "container", "-"));
+    v.push(with(CItem { attrs: vec![], body: Body::UnitStruct, cause: String::new(), level: "", form: "", base: "-" }, "shape:unit-struct", "container", "-"));
+    v.push(with(
+        CItem { attrs: vec![], body: Body::Union(vec![CField { attrs: vec![], name: "a".into(), ty: "u8".into(), poison: false }, CField { attrs: vec![], name: "b".into(), ty: "u32".into(), poison: false }]), cause: String::new(), level: "", form: "", base: "-" },
+        "shape:union",
+        "container",
+        "-",
+    ));
+    for (tagged, data, cause) in [
+        (true, VData::Unnamed("u8".into()), "shape:unnamed-variant-data-tagged"),
+        (false, VData::Unnamed("String, u8".into()), "shape:unnamed-variant-data-untagged"),
+        (false, VData::Named(vec![CField { attrs: vec![], name: "x".into(), ty: "u8".into(), poison: false }]), "shape:data-carrying-enum-without-tag"),
+    ] {
+        let mut it = if tagged { min_tagged() } else { min_unit_enum() };
+        if let Body::Enum(vs) = &mut it.body {
+            vs.push(CVariant { attrs: vec![], name: "Poisoned".into(), data, poison: true });
+        }
+        v.push(with(it, cause, "variant", "-"));
+    }
+    // unknown and misplaced attributes at every level
+    let unknown = ["bogus", "bogus = 1", "renam = \"x\"", "tags = \"t\"", "skipped", "denyunknownfields"];
+    let misplaced_container = ["needs_predicate", "skip", "default", "map = f_map", "rename = \"x\"", "missing_field_error = f_missing::<__Deserr_E>"];
+    let misplaced_variant = ["default", "skip", "tag = \"t\"", "deny_unknown_fields", "error = MyErr", "map = f_map"];
+    let misplaced_field = ["tag = \"t\"", "rename_all = camelCase", "deny_unknown_fields", "validate = f_validate -> __Deserr_E", "where_predicate = T: Copy"];
+    for u in unknown.iter().chain(misplaced_container.iter()) {
+        v.push(with(place("container", min_struct(), u, None, false, "u8"), "unknown-attribute", "container", "-"));
+    }
+    for u in unknown.iter().chain(misplaced_variant.iter()) {
+        v.push(with(place("variant", min_tagged(), u, None, false, "u8"), "unknown-attribute", "variant", "-"));
+        v.push(with(place("variant", min_unit_enum(), u, None, false, "u8"), "unknown-attribute", "variant", "-"));
+    }
+    for u in unknown.iter().chain(misplaced_field.iter()) {
+        v.push(with(place("field", min_struct(), u, None, false, "u8"), "unknown-attribute", "field", "-"));
+        v.push(with(place("field", min_tagged(), u, None, false, "u8"), "unknown-attribute", "field", "-"));
+    }
+    // every single-valued attribute twice, in one attribute and across two
+    let cdup: [(&str, &str, &str, u8); 7] = [
+        ("rename_all", "rename_all = camelCase", "rename_all = lowercase", 0),
+        ("error", "error = deserr::errors::JsonError", "error = deserr::errors::JsonError", 0),
+        ("tag", "tag = \"kind\"", "tag = \"other\"", 1),
+        ("deny_unknown_fields", "deny_unknown_fields", "deny_unknown_fields = f_unknown::<__Deserr_E>", 0),
+        ("from", "from(String) = f_from", "from(u8) = f_from", 2),
+        ("try_from", "try_from(String) = f_try -> MyErr", "try_from(u8) = f_try -> MyErr", 2),
+        ("validate", "validate = f_validate -> __Deserr_E", "validate = f_validate -> __Deserr_E", 0),
+    ];
+    for (name, x, y, base) in cdup {
+        for two in [false, true] {
+            let b = match base {
+                0 => min_struct(),
+                1 => {
+                    let mut t = min_tagged();
+                    t.attrs.clear();
+                    t
+                }
+                _ => CItem { attrs: vec![], body: Body::Tuple("u8".into()), cause: String::new(), level: "", form: "", base: "container-conversion" },
+            };
+            v.push(with(place("container", b, x, Some(y), two, "u8"), &format!("dup:{name}"), "container", if two { "two-attributes" } else { "one-attribute" }));
+        }
+    }
+    for (name, x, y) in [("rename", "rename = \"one\"", "rename = \"uno\""), ("rename_all", "rename_all = camelCase", "rename_all = lowercase")] {
+        for two in [false, true] {
+            v.push(with(place("variant", min_tagged(), x, Some(y), two, "u8"), &format!("dup:{name}"), "variant", if two { "two-attributes" } else { "one-attribute" }));
+        }
+    }
+    let fdup: [(&str, &str, &str, &str); 9] = [
+        ("rename", "rename = \"one\"", "rename = \"uno\"", "u8"),
+        ("default", "default", "default = 2", "u8"),
+        ("default", "default = 1", "default", "u8"),
+        ("default", "default", "default", "u8"),
+        ("missing_field_error", "missing_field_error = f_missing::<__Deserr_E>", "missing_field_error = f_missing::<__Deserr_E>", "u8"),
+        ("error", "error = __Deserr_E", "error = __Deserr_E", "u8"),
+        ("map", "map = f_map", "map = f_map", "u8"),
+        ("from", "from(u8) = f_from", "from(u8) = f_from", "W<u8>"),
+        ("try_from", "try_from(u8) = f_try -> MyErr", "try_from(u8) = f_try -> MyErr", "W<u8>"),
+    ];
+    for (name, x, y, ty) in fdup {
+        for two in [false, true] {
+            for b in [min_struct(), min_tagged()] {
+                v.push(with(place("field", b, x, Some(y), two, ty), &format!("dup:{name}"), "field", if two { "two-attributes" } else { "one-attribute" }));
+            }
+        }
+    }
+    // from together with try_from
+    for (x, y) in [("from(u8) = f_from", "try_from(u8) = f_try -> MyErr"), ("try_from(u8) = f_try -> MyErr", "from(u8) = f_from")] {
+        for two in [false, true] {
+            let form = if two { "two-attributes" } else { "one-attribute" };
+            let b = CItem { attrs: vec![], body: Body::Tuple("u8".into()), cause: String::new(), level: "", form: "", base: "container-conversion" };
+            v.push(with(place("container", b, x, Some(y), two, "u8"), "from+try_from", "container", form));
+            v.push(with(place("field", min_struct(), x, Some(y), two, "W<u8>"), "from+try_from", "field", form));
+        }
+    }
+    // tag on a struct (plain, and with a container conversion)
+    for b in [min_struct(), {
+        let mut t = min_via("from(String) = f_from");
+        t.body = Body::Struct(vec![CField { attrs: vec![], name: "alpha".into(), ty: "String".into(), poison: false }]);
+        t
+    }, min_via("from(&String) = f_from")] {
+        v.push(with(place("container", b.clone(), "tag = \"kind\"", None, false, "u8"), "tag-on-struct", "container", "own-attribute"));
+    }
+    // container try_from with rename_all / tag / deny_unknown_fields
+    for other in ["rename_all = camelCase", "tag = \"kind\"", "deny_unknown_fields", "deny_unknown_fields = f_unknown::<__Deserr_E>"] {
+        for (x, y) in [("try_from(String) = f_try -> MyErr", other), (other, "try_from(&String) = f_try -> MyErr")] {
+            for two in [false, true] {
+                let body = if other.starts_with("tag") {
+                    Body::Enum(vec![CVariant { attrs: vec![], name: "First".into(), data: VData::Unit, poison: false }])
+                } else {
+                    Body::Struct(vec![CField { attrs: vec![], name: "alpha".into(), ty: "u8".into(), poison: false }])
+                };
+                let b = CItem { attrs: vec![], body, cause: String::new(), level: "", form: "", base: "container-conversion" };
+                let key = other.split(' ').next().unwrap();
+                v.push(with(place("container", b, x, Some(y), two, "u8"), &format!("try_from+{key}"), "container", if two { "two-attributes" } else { "one-attribute" }));
+            }
+        }
+    }
+    // invalid rename_all values
+    for bad in ["rename_all = snake_case", "rename_all = PascalCase", "rename_all = \"camelCase\"", "rename_all = CamelCase", "rename_all = UPPERCASE", "rename_all = camelcase"] {
+        v.push(with(place("container", min_struct(), bad, None, false, "u8"), "invalid-rename_all-value", "container", "-"));
+        v.push(with(place("variant", min_tagged(), bad, None, false, "u8"), "invalid-rename_all-value", "variant", "-"));
+    }
+    // malformed syntax
+    let forms_container = ["rename_all", "rename_all camelCase", "tag", "tag = kind", "tag = 3", "= \"x\"", "deny_unknown_fields extra", "validate = f_validate", "validate", "from(String)", "try_from(String) = f_try", "from = f_from", "error", "where_predicate", "rename_all = camelCase;", "generic_param", "generic_param = 3", "where_predicate = 3", "from() = f_from", "try_from(String, u8) = f_try -> MyErr", "from(String) f_from", "deny_unknown_fields = 3", "error = 3 +"];
+    let forms_field = ["rename", "rename = renamed", "rename = 3", "rename \"x\"", "skip extra", "default =", "map", "map = 3", "from(u8)", "try_from(u8) = f_try", "try_from(u8) = f_try ->", "missing_field_error", "error =", "skip; default", "skip = true", "default = 1 2", "from() = f_from", "try_from(u8) -> MyErr", "missing_field_error = 3", "needs_predicate = true"];
+    let forms_variant = ["rename", "rename = renamed", "rename_all", "rename_all = ", "rename = \"a\" extra"];
+    for f in forms_container {
+        let b = if f.starts_with("tag") { min_unit_enum() } else { min_struct() };
+        v.push(with(place("container", b, f, None, false, "u8"), "malformed-syntax", "container", "-"));
+    }
+    for f in forms_field {
+        let ty = if f.starts_with("from") || f.starts_with("try_from") { "W<u8>" } else { "u8" };
+        v.push(with(place("field", min_struct(), f, None, false, ty), "malformed-syntax", "field", "-"));
+    }
+    for f in forms_variant {
+        v.push(with(place("variant", min_tagged(), f, None, false, "u8"), "malformed-syntax", "variant", "-"));
+    }
+    for raw in ["#[deserr]", "#[deserr()]", "#[deserr = \"x\"]", "#[deserr(,)]"] {
+        v.push(with(place("container", min_struct(), raw, None, false, "u8"), "malformed-syntax", "container", "non-list"));
+        v.push(with(place("field", min_struct(), raw, None, false, "u8"), "malformed-syntax", "field", "non-list"));
+        v.push(with(place("variant", min_tagged(), raw, None, false, "u8"), "malformed-syntax", "variant", "non-list"));
+        v.push(with(place("variant", min_unit_enum(), raw, None, false, "u8"), "malformed-syntax", "variant", "non-list"));
+    }
+    v
+}
+
 /// single-deletion variants of an item that keep the poison
 fn reductions(it: &CItem) -> Vec<CItem> {
     let mut out = vec![];
@@ -912,7 +1139,7 @@ pub fn run(tier: Tier) -> i32 {
         tier,
         "programs = valid derive inputs from a grammar (structs, tagged enums, unit enums, container conversions with random valid attribute mixes, split randomly over one or several #[deserr(..)]) each poisoned with exactly ONE rejection cause from the property's list \
          (unsupported shape; unknown attribute; each single-valued attribute given twice; from+try_from; tag on a struct; container try_from with rename_all/tag/deny_unknown_fields; invalid rename_all value; malformed syntax) at container, variant or field level, within one attribute or across two; \
-         each batch is compiled once with `cargo check --message-format=json`; oracle: every poisoned item gets >= 1 error diagnostic without an error code (issued by the derive) and none reading 'derive panicked'; the unpoisoned base items compile with no error at all (control batch); \
+         a SYSTEMATIC batch enumerates every listed cause x level x form once on minimal bases (finite list, complete), the other batches are random; each batch is compiled once with `cargo check --message-format=json`; oracle: every poisoned item gets >= 1 error diagnostic without an error code (issued by the derive) and none reading 'derive panicked'; the unpoisoned base items compile with no error at all (control batch); \
          non-trivial = distinct (cause, level, one/two attributes, base shape) combinations; evaluations = poisoned items compiled",
     );
     let known = open_known("C16");
@@ -950,8 +1177,11 @@ pub fn run(tier: Tier) -> i32 {
     let per = 260;
     let mut combos: BTreeMap<String, u64> = BTreeMap::new();
     let mut failing: Vec<(CItem, String)> = vec![];
-    for b in 0..batches {
-        let items: Vec<CItem> = (0..per).map(|_| g.poisoned()).collect();
+    let systematic = systematic_items();
+    rep.extra.insert("systematic_items".into(), json!(systematic.len()));
+    for b in 0..=batches {
+        // batch 0 enumerates every listed rejection cause once on minimal bases; the others are random
+        let items: Vec<CItem> = if b == 0 { systematic.clone() } else { (0..per).map(|_| g.poisoned()).collect() };
         let (diags, _) = match compile(&items) {
             Ok(x) => x,
             Err(e) => {
@@ -966,7 +1196,7 @@ pub fn run(tier: Tier) -> i32 {
             rep.stats.nontrivial(&combo);
             rep.stats.class(&format!("cause: {}", it.cause));
             let d = &diags[i];
-            if (b == 0 && i % 60 == 0) || (i == 7 && b == 1) {
+            if (b <= 1 && i % 60 == 0) || (i == 7 && b == 2) {
                 rep.stats.samples.push(json!({"cause": it.cause, "level": it.level, "form": it.form, "source": render(it, "T"), "derive_diagnostics": d.derive_errors}));
             }
             if d.panicked {
